@@ -197,6 +197,8 @@ SLICE_PRELUDE = ['pred_helpers.h']
 J('oct.IntegerVectorToQuantizedOctahedralCoords', 'h_oct_intvec', ['C07', 'C02'], native=True)
 for q in (2, 8, 30):
     J('oct.FloatVector.range.q%d' % q, 'h_oct_floatvec', ['C07'], defines=DEFS + ['-DOCT_Q=%d' % q], cbmc=['--conversion-check'], native=True, timeout=1800, cost=9, tier=None if q in (2, 8) else 'thorough')
+for q in (4, 8):
+    J('oct.FloatVector.dominant.q%d' % q, 'h_oct_floatvec_dominant', ['C07'], defines=DEFS + ['-DOCT_Q=%d' % q], replace=['OTB_IntegerVectorToQuantizedOctahedralCoords'], timeout=1200, cost=7)
 # 64-bit multiply + divide by the VARIABLE abs_sum: no back end relates the quotient to its bound over the full domain (measured: > 30 min), so the
 # lemma is a bounded stand-in (components below 2^8, per q) in the quick tier and attempted over the full domain only in the thorough tier
 for q, b in ((4, 6), (8, 8)):
